@@ -221,6 +221,9 @@ def build(sim, typ):
             d["ic"] = "%02X" % ic
         sil = t3t.T3TSilicon(blocks, case.idm, pmm, systems=case.systems, max_read=case.max_read,
                              max_write=case.max_write)
+        if sim.chance("t3.always_rd", 0.2):
+            sil.always_rd = True          # polling answers carry the system code also when request code 0 asked for none
+            d["always_rd"] = True
         if kind == "activation" and sim.chance("short_sensf", 0.3):
             orig = sil.poll
 
